@@ -18,6 +18,11 @@ Rec == ndJsonDeserialize(IOEnv.TRACE)
 TraceMods == [s \in {"custom", "staking", "distribution", "ibc", "gov", "stargate", "any"} |->
                 IF s \in {"custom", "ibc", "any"} THEN "accept" ELSE "fail"]
 
+(* ... and by its staking mode (`mtv drive chain-stake`): the real staking and distribution keepers *)
+TraceModsStake == [s \in {"custom", "staking", "distribution", "ibc", "gov", "stargate", "any"} |->
+                     IF s \in {"staking", "distribution"} THEN "real"
+                     ELSE IF s \in {"custom", "ibc", "any"} THEN "accept" ELSE "fail"]
+
 VARIABLES l, root, codes, block, bad
 tvars == <<l, root, codes, block, bad>>
 
@@ -42,11 +47,14 @@ FlatReg(st, withLabel) ==
      ELSE <<c, st.reg[c].code, st.reg[c].creator, st.reg[c].admin>> : c \in DOMAIN st.reg}
 FlatCs(st) == UNION {{<<c, k, st.cs[c][k]>> : k \in DOMAIN st.cs[c]} : c \in DOMAIN st.cs}
 
+FlatSk(st, t) == LET v == SkView(st, t) IN {<<k, v[k][1], v[k][2]>> : k \in DOMAIN v}
+
 SeqSet(s) == {s[i] : i \in 1..Len(s)}
-SameState(st, logged, withLabel) ==
+SameState(st, logged, withLabel, t) ==
     /\ SeqSet(logged.bank) = FlatBank(st)
     /\ SeqSet(logged.reg) = FlatReg(st, withLabel)
     /\ SeqSet(logged.cs) = FlatCs(st)
+    /\ SeqSet(logged.sk) = FlatSk(st, t)          \* delegations and accumulated rewards as the staking queries show them
 
 InvEntries(log) == SelectSeq(log, LAMBDA e : e.t = "inv")
 
@@ -55,7 +63,7 @@ SameInfo(e, o)  == e.flavour = o.flavour /\ e.sender = o.sender /\ e.funds = o.f
 SameReply(e, o) == e.reply.is =>
                       /\ e.reply.id = o.reply.id /\ e.reply.payload = o.reply.payload /\ e.reply.ok = o.reply.ok
                       /\ e.reply.ok => (RenderEvs(e.reply.ev) = o.reply.ev /\ Canon(e.reply.data) = Canon(o.reply.data))
-SameReads(e, o) == SameState(e.reads, o.reads, FALSE)
+SameReads(e, o) == SameState(e.reads, o.reads, FALSE, e.block.t)
 SameInvocation(e, o) == SameSeq(e, o) /\ SameInfo(e, o) /\ SameReply(e, o) /\ SameReads(e, o)
 WhichPart(e, o) == IF ~SameSeq(e, o) THEN "invocation.seq" ELSE IF ~SameInfo(e, o) THEN "invocation.info"
                    ELSE IF ~SameReply(e, o) THEN "invocation.reply" ELSE "invocation.reads"
@@ -72,7 +80,9 @@ Compare(e, r) ==
     ELSE IF r.ok # e.ok THEN <<"result", e.ok, "specification", r.ok>>
     ELSE IF r.ok /\ RenderResps(r.resps) # [i \in 1..Len(e.resps) |-> [ev |-> e.resps[i].ev, data |-> Canon(e.resps[i].data)]]
     THEN <<"responses", e.resps, "specification", RenderResps(r.resps)>>
-    ELSE IF ~SameState(r.post, e.post, TRUE) THEN <<"state", "after the call; specification", r.post>>
+    ELSE IF ~SameState(r.post, e.post, TRUE, block.t) THEN <<"state", "after the call; specification", r.post>>
+    ELSE IF "settled" \in DOMAIN e /\ SeqSet(e.settled) # FlatBank([bank |-> Settled(r.post)])
+    THEN <<"state", "balances once every pending unbonding is due; specification", Settled(r.post)>>
     ELSE IF [i \in 1..Len(r.rlog) |-> <<r.rlog[i].slot, r.rlog[i].sender>>] # e.rlog THEN <<"modules", e.rlog, "specification", r.rlog>>
     ELSE IF e.incons # <<>> THEN <<"views", e.incons>>
     ELSE <<>>
@@ -87,7 +97,12 @@ TraceStep ==
          [] Line.ev = "admin" ->
               LET a == AdminCall(codes, block, Line.call) IN
               /\ codes' = a.codes /\ block' = a.block /\ root' = AfterAdmin(root, Line.call, a.block)
-              /\ bad' = IF a.ok # Line.ok THEN <<"admin call result", Line.ok>> ELSE <<>>
+              /\ bad' = IF a.ok # Line.ok THEN <<"admin call result", Line.ok>>
+                        ELSE IF ~SameState(AfterAdmin(root, Line.call, a.block), Line.post, TRUE, a.block.t)
+                        THEN <<"state", "after the block update; specification", AfterAdmin(root, Line.call, a.block)>>
+                        ELSE IF [i \in 1..Len(AdminRlog(root, Line.call, a.block)) |-> <<"bank", Pool>>] # Line.rlog
+                        THEN <<"modules", Line.rlog, "specification", AdminRlog(root, Line.call, a.block)>>
+                        ELSE <<>>
          [] Line.ev = "call" ->
               LET r == RunTx(root, codes, block, Line.call, Line.sc) IN
               /\ root' = r.post /\ UNCHANGED <<codes, block>>
